@@ -798,7 +798,7 @@ class DataFrameSchemaBackend(PandasSchemaBackend):
         keep_setting = convert_uniquesettings(schema.report_duplicates)
         temp_unique: List[List] = (
             [schema.unique]
-            if all(isinstance(x, str) for x in schema.unique)
+            if not any(isinstance(x, (list, tuple)) for x in schema.unique)
             else schema.unique
         )
         for lst in temp_unique:
